@@ -34,8 +34,8 @@ Inductive saddr := ARep (kind : Z) (pk : str) | AAddr (kind : Z) (pk d : str).
 
 Definition saddr_eqb (a b : saddr) : bool :=
   match a, b with
-  | ARep k1 p1, ARep k2 p2 => (k1 =? k2) && str_eqb p1 p2
-  | AAddr k1 p1 d1, AAddr k2 p2 d2 => (k1 =? k2) && str_eqb p1 p2 && str_eqb d1 d2
+  | ARep k1 p1, ARep k2 p2 => (k1 =? k2) &&& str_eqb p1 p2
+  | AAddr k1 p1 d1, AAddr k2 p2 d2 => (k1 =? k2) &&& str_eqb p1 p2 &&& str_eqb d1 d2
   | _, _ => false
   end.
 
@@ -81,19 +81,30 @@ Fixpoint splits {A} (pre : list A) (l : list A) : list (list A * A * list A) :=
   | x :: l' => (pre, x, l') :: splits (pre ++ [x]) l'
   end.
 
-Definition mem_event (x : event) (l : list event) : bool := existsb (event_eqb x) l.
+(** [event_eqb] with short-circuit evaluation *)
+Definition ev_eqb (a b : event) : bool :=
+  str_eqb (ev_id a) (ev_id b) &&& (ev_ts a =? ev_ts b) &&& (ev_kind a =? ev_kind b) &&&
+  str_eqb (ev_pk a) (ev_pk b) &&& str_eqb (ev_content a) (ev_content b) &&&
+  list_eqb tag_eqb (ev_tags a) (ev_tags b) &&& str_eqb (ev_sig a) (ev_sig b).
+
+Definition mem_event (x : event) (l : list event) : bool := existsb (ev_eqb x) l.
+
+(** boolean form: scan to the first occurrence of [x] (a later occurrence
+    cannot be the witness: the earlier copy of [x] itself is not older) *)
+Fixpoint stored_scan (a : saddr) (x : event) (es : list event) : bool :=
+  match es with
+  | [] => false
+  | y :: r =>
+      if ev_eqb y x
+      then forallb (fun y => (ev_ts y <=? ev_ts x) ||| negb (has_address a y)) r
+      else ((ev_ts y <? ev_ts x) ||| negb (has_address a y)) &&& stored_scan a x r
+  end.
 
 Definition storedb (es : list event) (x : event) : bool :=
-  mem_event x es && storable x &&
+  mem_event x es &&& storable x &&&
   match address x with
   | None => true
-  | Some a =>
-      existsb (fun sp =>
-                 let '(pre, y, post) := sp in
-                 event_eqb y x &&
-                 forallb (fun y => negb (has_address a y) || (ev_ts y <? ev_ts x)) pre &&
-                 forallb (fun y => negb (has_address a y) || (ev_ts y <=? ev_ts x)) post)
-              (splits [] es)
+  | Some a => stored_scan a x es
   end.
 
 (** a tag of a deletion request references [x]: by id (["e", id, ...]) or -
@@ -102,8 +113,8 @@ Definition storedb (es : list event) (x : event) : bool :=
 Definition refs (t : tag) (x : event) : bool :=
   match t with
   | n :: v :: _ =>
-      (str_eqb n s_e && str_eqb v (ev_id x)) ||
-      (str_eqb n s_a &&
+      (str_eqb n s_e &&& str_eqb v (ev_id x)) |||
+      (str_eqb n s_a &&&
        match address x with
        | Some (AAddr k pk d) => str_eqb v (showZ k ++ [colon] ++ pk ++ [colon] ++ d)
        | _ => false
@@ -117,10 +128,10 @@ Definition deleted (es : list event) (x : event) : Prop :=
   exists d t, In d es /\ ev_kind d = 5 /\ ev_pk d = ev_pk x /\ In t (ev_tags d) /\ refs t x = true.
 
 Definition deletedb (es : list event) (x : event) : bool :=
-  existsb (fun d => (ev_kind d =? 5) && str_eqb (ev_pk d) (ev_pk x) && existsb (fun t => refs t x) (ev_tags d)) es.
+  existsb (fun d => (ev_kind d =? 5) &&& str_eqb (ev_pk d) (ev_pk x) &&& existsb (fun t => refs t x) (ev_tags d)) es.
 
 Definition live (es : list event) (x : event) : Prop := stored es x /\ ~ deleted es x.
-Definition liveb (es : list event) (x : event) : bool := storedb es x && negb (deletedb es x).
+Definition liveb (es : list event) (x : event) : bool := storedb es x &&& negb (deletedb es x).
 
 (* ------------------------------------------------------------------ *)
 (** * The query specification *)
@@ -198,7 +209,7 @@ Fixpoint assign (extras : list event) (caps : list (list event * Z)) : bool :=
   | [] => true
   | x :: rest =>
       existsb (fun j => match nth_error caps j with
-                        | Some (T, c) => mem_event x T && (0 <? c) && assign rest (dec_nth caps j)
+                        | Some (T, c) => (0 <? c) &&& mem_event x T &&& assign rest (dec_nth caps j)
                         | None => false
                         end)
               (seq 0 (length caps))
@@ -207,16 +218,16 @@ Fixpoint assign (extras : list event) (caps : list (list event * Z)) : bool :=
 Fixpoint nodupb (l : list event) : bool :=
   match l with
   | [] => true
-  | x :: l' => negb (mem_event x l') && nodupb l'
+  | x :: l' => negb (mem_event x l') &&& nodupb l'
   end.
 
 Fixpoint desc_sortedb (l : list event) : bool :=
   match l with
   | [] => true
-  | x :: l' => forallb (fun y => ev_ts y <=? ev_ts x) l' && desc_sortedb l'
+  | x :: l' => forallb (fun y => ev_ts y <=? ev_ts x) l' &&& desc_sortedb l'
   end.
 
-Definition dedup_events (l : list event) : list event := dedup event_eqb l [].
+Definition dedup_events (l : list event) : list event := dedup ev_eqb l [].
 
 (** [out] is a merge of one top-[lim] choice per candidate set.
     [cands]: per filter the duplicate-free candidate set and its limit.
@@ -226,37 +237,39 @@ Definition dedup_events (l : list event) : list event := dedup event_eqb l [].
 Definition union_topn_ok (cands : list (list event * option Z)) (outer : option Z) (out : list event) : bool :=
   let admissible := dedup_events (flat_map (fun cl => sure_of cl ++ ties_of cl) cands) in
   let sures := flat_map sure_of cands in
-  nodupb out && desc_sortedb out &&
-  forallb (fun x => mem_event x admissible) out &&
+  nodupb out &&& desc_sortedb out &&&
+  forallb (fun x => mem_event x admissible) out &&&
   match outer with
   | Some m => zlen out <=? m
   | None => true
-  end &&
+  end &&&
   if match outer with Some m => zlen admissible <=? m | None => true end
   then
-    forallb (fun x => mem_event x out) sures &&
-    forallb (fun cl => tie_room cl <=? count_b (fun x => mem_event x out) (ties_of cl)) cands &&
+    forallb (fun x => mem_event x out) sures &&&
+    forallb (fun cl => tie_room cl <=? count_b (fun x => mem_event x out) (ties_of cl)) cands &&&
     assign (filter (fun x => negb (mem_event x sures)) out)
            (List.map (fun cl => (ties_of cl, tie_room cl)) cands)
   else true.
 
 Definition live_list (es : list event) : list event := dedup_events (filter (liveb es) es).
 
-Definition query_specb (es : list event) (fs : list rfilter) (maxLimit : Z) (out : list event) : bool :=
-  let L := live_list es in
+Definition query_specb_L (L : list event) (fs : list rfilter) (maxLimit : Z) (out : list event) : bool :=
   union_topn_ok (List.map (fun f => (filter (fun x => match_specb x f) L, spec_limit (f_limit f) maxLimit)) fs)
                 (spec_limit None maxLimit) out.
+
+Definition query_specb (es : list event) (fs : list rfilter) (maxLimit : Z) (out : list event) : bool :=
+  query_specb_L (live_list es) fs maxLimit out.
 
 (* ------------------------------------------------------------------ *)
 (** * Hypotheses of the theorems (what the admission gate guarantees) *)
 
 Definition lower_hex_char (c : N) : bool := ((48 <=? c) && (c <=? 57) || (97 <=? c) && (c <=? 102))%N.
-Definition lower_hex (n : nat) (s : str) : bool := Nat.eqb (length s) n && forallb lower_hex_char s.
+Definition lower_hex (n : nat) (s : str) : bool := Nat.eqb (length s) n &&& forallb lower_hex_char s.
 
 (** Event.Valid: 64/64/128 lower-case hex digits, every tag has a non-empty
     first element *)
 Definition gate_valid_event (e : event) : bool :=
-  lower_hex 64 (ev_id e) && lower_hex 64 (ev_pk e) && lower_hex 128 (ev_sig e) &&
+  lower_hex 64 (ev_id e) &&& lower_hex 64 (ev_pk e) &&& lower_hex 128 (ev_sig e) &&&
   forallb (fun t => match t with [] => false | n :: _ => negb (str_eqb n []) end) (ev_tags e).
 
 Definition ascii_letter (c : N) : bool := ((97 <=? c) && (c <=? 122) || (65 <=? c) && (c <=? 90))%N.
@@ -264,7 +277,7 @@ Definition ascii_letter (c : N) : bool := ((97 <=? c) && (c <=? 122) || (65 <=? 
 Fixpoint nodup_strs (l : list str) : bool :=
   match l with
   | [] => true
-  | x :: l' => negb (mem_str x l') && nodup_strs l'
+  | x :: l' => negb (mem_str x l') &&& nodup_strs l'
   end.
 
 (** ReqFilter.Valid, as far as the store depends on it: hex ids/authors,
@@ -280,15 +293,15 @@ Definition gate_valid_filter (f : rfilter) : bool :=
 Definition ids_functional (es : list event) : Prop :=
   forall x y, In x es -> In y es -> ev_id x = ev_id y -> x = y.
 Definition ids_functionalb (es : list event) : bool :=
-  forallb (fun x => forallb (fun y => negb (str_eqb (ev_id x) (ev_id y)) || event_eqb x y) es) es.
+  forallb (fun x => forallb (fun y => negb (str_eqb (ev_id x) (ev_id y)) ||| ev_eqb x y) es) es.
 
 (** ["e", v] references of deletion requests that decode as hex are written
     in lower case (the store compares decoded bytes, the specification
     compares strings) *)
 Definition e_refs_canonical (es : list event) : bool :=
-  forallb (fun d => negb (ev_kind d =? 5) ||
+  forallb (fun d => negb (ev_kind d =? 5) |||
                     forallb (fun t => match t with
-                                      | n :: v :: _ => negb (str_eqb n s_e) || negb (hex_ok v) || str_eqb (hexl v) v
+                                      | n :: v :: _ => negb (str_eqb n s_e) ||| negb (hex_ok v) ||| str_eqb (hexl v) v
                                       | _ => true
                                       end) (ev_tags d)) es.
 
@@ -296,11 +309,11 @@ Definition e_refs_canonical (es : list event) : bool :=
     claimed either way; histories in which a deletion request of the same
     author carries such a reference are outside the statement *)
 Definition a_refs_scoped (es : list event) : bool :=
-  forallb (fun d => negb (ev_kind d =? 5) ||
+  forallb (fun d => negb (ev_kind d =? 5) |||
      forallb (fun t => match t with
                        | n :: v :: _ =>
-                           negb (str_eqb n s_a) ||
-                           forallb (fun x => negb (sp_replaceable (ev_kind x) && str_eqb (ev_pk x) (ev_pk d) &&
+                           negb (str_eqb n s_a) |||
+                           forallb (fun x => negb (sp_replaceable (ev_kind x) &&& str_eqb (ev_pk x) (ev_pk d) &&&
                                                    str_eqb v (showZ (ev_kind x) ++ [colon] ++ ev_pk x))) es
                        | _ => true
                        end) (ev_tags d)) es.
